@@ -33,6 +33,19 @@ Definition blocking_modes_as_modelled : bool :=
    && existsb (fun y => match y with (a, b, c) => (String.eqb a "PfcpServer.NotifySessReport" && String.eqb b "PfcpServer.srCh"
                                                      && String.eqb c "send-select")%bool end) offloop_chanops)%string%bool.
 
+(* the queue's wake-up protocol: put takes the lock, appends, and only then signals (a signal before the append can be
+   lost: the consumer would sleep with an event queued); get re-checks its condition in a loop around Wait *)
+Fixpoint index_of (x : string) (l : list string) (i : nat) : option nat :=
+  match l with [] => None | y :: r => if String.eqb x y then Some i else index_of x r (S i) end.
+Definition queue_protocol_ok : bool :=
+  match index_of "Lock" perio_put_order 0, index_of "append" perio_put_order 0, index_of "Signal" perio_put_order 0 with
+  | Some a, Some b, Some c => (Nat.ltb a b && Nat.ltb b c)%bool
+  | _, _, _ => false
+  end && perio_get_wait_in_loop.
+Theorem C18_queue_wakeup_protocol : queue_protocol_ok = true.
+Proof. vm_compute. reflexivity. Qed.
+Print Assumptions C18_queue_wakeup_protocol.
+
 Theorem C18_blocking_modes : blocking_modes_as_modelled = true.
 Proof. vm_compute. reflexivity. Qed.
 Print Assumptions C18_blocking_modes.
